@@ -14,7 +14,8 @@
 From MV Require Import Base.Prelude Model.Store Model.StoreSpec Model.Derived Model.Enrich Corr.C01.
 Local Open Scope N_scope.
 
-Definition C41_in := (N * list sitem)%type.                       (* checkpoint_interval, schedule *)
+(* checkpoint_interval, stop() called on the handle before run_worker_loop was entered, schedule *)
+Definition C41_in := (N * bool * list sitem)%type.
 (* code, result, queue length, first task, frame_count, next_frame_id *)
 Definition step_obs := (N * outcome N * N * option N * N * N)%type.
 (* frame table, enrichment state of frames 0..n-1, frames_processed, errors, stopped *)
@@ -73,8 +74,8 @@ Definition final_of (x : est * wst) : C41_final :=
    with nothing left to checkpoint, or the loop had already exited) runs no closure, so there is
    nothing to observe for it; its model observation is dropped *)
 Definition C41_run (i : C41_in) : C41_out :=
-  let '(iv, sched) := i in
-  let '(x, os) := obs_run iv (e0, w0) sched in (removelast os, final_of x).
+  let '(iv, pre, sched) := i in
+  let '(x, os) := obs_run iv (init pre) sched in (removelast os, final_of x).
 
 (* ---- stream "real": final table = reference table of the foreground's acknowledged calls ---- *)
 Definition C41_real_in := list (sop * sout).
